@@ -1,9 +1,9 @@
 #!/bin/bash
-# regress_seeded.sh [tier] -- re-runs the check of every seeded change against it (scratch worktree per change), two at a time;
+# regress_seeded.sh [tier] -- re-runs the check of every seeded change against it (scratch worktree per change), three at a time;
 # results in seeded/_regress/<id>.json, one summary line each in seeded/_regress/summary.txt
 cd /verif; tier=${1:-quick}; mkdir -p seeded/_regress; : > seeded/_regress/summary.txt
 run() { id=$1; p=${id%-*}; out=$(python3 tools/try_mutant.py seeded/$id/patch.diff seeded/$id/demo.cpp seeded/_regress/$id.json $p --tier $tier --checks-only 2>&1 | grep "^$p:" | cut -c1-160); echo "$id $out" >> seeded/_regress/summary.txt; }
 ids=$(ls seeded | grep -E '^C[0-9]+-[0-9]+$')
 n=0
-for id in $ids; do run $id & n=$((n+1)); if [ $((n % 2)) -eq 0 ]; then wait; fi; done; wait
+for id in $ids; do run $id & n=$((n+1)); if [ $((n % 3)) -eq 0 ]; then wait; fi; done; wait
 echo ALL-DONE >> seeded/_regress/summary.txt
